@@ -134,6 +134,39 @@ def sweep(ctx, N):
                     val, info = Residue(watch(lambda z: g(z) / (z - z0) ** p, z0), pole_order=p, order=o, **opts)(z0)
                     exact = np.asarray(g(z0))
                     kname = 'pole%d' % p
+                elif kind == 'array' and it % 2 == 0:
+                    # array argument with SEVERAL different singular points (different limits) among regular points, in random order
+                    roots = np.sort(rng.uniform(-2, 2, size=3))
+                    roots = roots + np.array([0.0, 0.4, 0.8])                       # pairwise distinct
+                    if isinstance(z0, complex):
+                        roots = roots + 1j * rng.uniform(0, 1, size=3)
+                    kname = str(rng.choice(['sin(w)/w', 'expm1(w)/w']))
+                    s = KERNELS[kname]
+                    wfun = lambda z: (z - roots[0]) * (z - roots[1]) * (z - roots[2]) / 10.0    # noqa
+                    def f(z):
+                        w = wfun(z)
+                        v = g(z) * s(w)
+                        if np.any(~np.isfinite(np.asarray(v)) & (np.asarray(w) != 0)):
+                            left['domain'] = True        # e.g. sin(w) overflows for |Im w| > 710: the path leaves the double-precision domain of f
+                        return v
+                    pts = np.concatenate([roots, roots[:1], roots[0] + rng.uniform(0.1, 0.3, size=2), roots[2] - rng.uniform(0.1, 0.3, size=1)])
+                    pts = pts[rng.permutation(pts.size)][:int(rng.integers(4, 8))]
+                    zs = pts.reshape((2, -1)) if pts.size % 2 == 0 and it % 4 == 0 else pts
+                    sing = np.ravel(wfun(zs) == 0)
+                    desc.update(kernel=kname, f='g(z) * %s, w = (z - r0)(z - r1)(z - r2)/10' % kname, roots=[repr(t) for t in roots], z=[repr(t) for t in np.ravel(zs)])
+                    val, info = Limit(f, order=order, **opts)(zs)
+                    if np.shape(val) != np.shape(zs):
+                        ctx.violation('shape', 'Limit(f)(z) returns shape %r for z of shape %r' % (np.shape(val), np.shape(zs)), desc)
+                        continue
+                    own = np.ravel(f(zs))
+                    ctx.count(1, ('sweep', 'several-singular-points', np.iscomplexobj(zs), int(np.sum(sing))))
+                    same = [complex(a) == complex(b) for a, b in zip(np.ravel(val)[~sing], own[~sing])]
+                    if not all(same) or np.any(np.ravel(info.error_estimate)[~sing] != 0):
+                        ctx.violation('finite-changed', 'Limit(f)(z): an entry where f is finite is not f\'s own value (or has a non-zero error estimate): got %r, f(z) = %r' % (
+                            np.ravel(val)[~sing].tolist(), own[~sing].tolist()), desc)
+                    kind = 'array-multi'
+                    val, exact = np.ravel(val)[sing], np.ravel(g(zs))[sing]
+                    info = info._replace(error_estimate=np.ravel(info.error_estimate)[sing])
                 elif kind == 'array':
                     # array argument mixing the singular point with regular points
                     offs = np.array([0.0, float(rng.uniform(0.2, 1.0)), -float(rng.uniform(0.2, 1.0)), 0.0, float(rng.uniform(1.1, 2.0))])[:int(rng.integers(2, 6))]
@@ -220,7 +253,18 @@ def real_cases(ctx, N):
         L = lim.Residue(f, pole_order=p, order=max(order, p + 1), **opts) if residue else lim.Limit(f, order=order, **opts)
         desc = {'class': 'Residue' if residue else 'Limit', 'g': g.show(), 'kernel': None if residue else kname, 'pole_order': p if residue else None, 'z0': z0,
                 'method': method, 'order': L.order, 'step_ratio': ratio, 'step': opts.get('step')}
-        if fill:
+        if fill and it % 4 == 1:
+            # several different singular points: the limits must be written back in order, each to its own entry
+            r = [z0, z0 + 0.5, z0 - 0.75]
+            gg, ss = g, s
+
+            def f(z, gg=gg, ss=ss, r=r):      # noqa
+                seen.append(np.array(z, dtype=float, copy=True))
+                return gg(z) * ss((z - r[0]) * (z - r[1]) * (z - r[2]) / 8.0)
+            L = lim.Limit(f, order=order, **opts)
+            desc['f'] = 'g(z) * kernel((z - z0)(z - z0 - 0.5)(z - z0 + 0.75)/8)'
+            zarg = np.array([r[1], z0 + 0.2, r[0], r[2], z0 - 0.3, r[1]])[:int(rng.integers(3, 7))]
+        elif fill:
             offs = np.array([0.0, 0.5, -0.75, 0.0, 1.5, 0.0])[:int(rng.integers(1, 7))]
             if it % 2:
                 offs = offs[::-1].copy()
